@@ -20,13 +20,13 @@ def gen_case(rng, fs=None, how=None, nmax=4):
     if potable:
         eamlib.make_potable_variants(rng, m)
     target = "DL_POLY_EAM_fs" if fs else "DL_POLY_EAM"
-    return dict(route="%s/%s" % (target, how), how=how, model=m, target=target)
+    return dict(route="%s/%s" % (target, how), how=how, model=m, target=target, api_variant=None if potable else eamlib.api_variant(rng, m))
 
 
 def run_impl(case):
     m, how, fs = case["model"], case["how"], case["model"]["fs"]
     if how in ("func", "class"):
-        pots, eams = eamlib.build_objects(m)
+        pots, eams = eamlib.build_objects(m, variant=case.get("api_variant"))
         s = io.StringIO()
         if how == "class":
             cls = TABEAM_FinnisSinclair_EAMTabulation if fs else TABEAM_EAMTabulation
@@ -55,6 +55,62 @@ def model_request(case):
 def tokenise(case, out):
     toks = eamlib.tabeam_tokens(out)
     return toks
+
+
+def rewritten_after_change(run):
+    """Python-API objects written, their functions' parameters changed (a fitting loop), the SAME objects written again on the same grid: the second file must hold
+    the functions as they are at that moment - no table, block or value remembered from the first write"""
+    import copy
+    rng = run.rng
+    cases = []
+    for _ in range(run.n(10, 80)):
+        c = gen_case(rng, how=rng.choice(["func", "class"]))
+        c["api_variant"] = None
+        cases.append(c)
+
+    def bumped(m):
+        m2 = copy.deepcopy(m)
+        b = lambda f: f + 17 if f else f
+        m2["embed"] = {e: b(f) for e, f in m["embed"].items()}
+        m2["dens"] = ({a: {k: b(f) for k, f in d.items()} for a, d in m["dens"].items()} if m["fs"] else {e: b(f) for e, f in m["dens"].items()})
+        m2["pairs"] = [(a, b_, b(f)) for (a, b_, f) in m["pairs"]]
+        return m2
+    seconds = [dict(c, model=bumped(c["model"])) for c in cases]
+    models = lean_query([model_request(c) for c in seconds])
+    nbad = 0
+    for c, c2, mo in zip(cases, seconds, models):
+        m, fs = c["model"], c["model"]["fs"]
+        pots, eams = eamlib.build_objects(m)
+        if c["how"] == "class":
+            cls = TABEAM_FinnisSinclair_EAMTabulation if fs else TABEAM_EAMTabulation
+            tab = cls(pots, eams, float(m["cut"]), m["nr"], float(m["cutrho"]), m["nrho"])
+            go = lambda s: tab.write(s)
+        else:
+            d = eamlib.direct_args(m)
+            go = lambda s: (writeTABEAMFinnisSinclair if fs else writeTABEAM)(m["nrho"], float(Fr(d["drho"])), m["nr"], float(Fr(d["dr"])), eams, pots, s)
+        s1, s2 = io.StringIO(), io.StringIO()
+        go(s1)
+        # the same callables, other parameters
+        for e in eams:
+            fns = [e.embeddingFunction] + (list(e.electronDensityFunction.values()) if fs else [e.electronDensityFunction])
+            for f in fns:
+                if isinstance(f, eamlib.Tr):
+                    f.fid += 17
+        for p in pots:
+            p.potentialFunction.fid += 17
+        go(s2)
+        run.case(key=("rewrite", c["route"], str(eamlib.describe(c))), kind="%s/rewritten-after-change" % c["route"])
+        run.traces += 2
+        try:
+            from props.C01 import first_diff
+            dd = first_diff(tokenise(c2, s2.getvalue()), mo)
+        except eamlib.FormatError as e:
+            dd = "layout: %s" % e
+        if dd:
+            nbad += 1
+            if nbad <= 2:
+                run.fail("tabeam-mismatch", "the same objects written a second time after their functions' parameters were changed: the second TABEAM file differs from the functions as they "
+                         "are now: %s" % dd, dict(case=eamlib.describe(c), second_model=eamlib.describe(c2), first_difference=dd))
 
 
 def check(run):
@@ -90,6 +146,7 @@ def check(run):
                     cases.append(c)
     eamlib.correspond(run, cases, run_impl, model_request, tokenise, "tabeam-mismatch", "TABEAM file differs from the model/property",
                       kind_of=lambda c, mo: "%s/n=%d" % (c["route"], len(c["model"]["els"])))
+    rewritten_after_change(run)
 
 
 def replay(run, payload):
